@@ -45,11 +45,21 @@ func goFuncs(args []string) error {
 			switch x := n.(type) {
 			case *ast.FuncDecl:
 				if x.Body != nil && x.Name.Name != "_" {
-					kind := "func"
-					if x.Recv != nil {
+					kind, recv := "func", ""
+					if x.Recv != nil && len(x.Recv.List) > 0 {
 						kind = "method"
+						switch t := x.Recv.List[0].Type.(type) {
+						case *ast.StarExpr:
+							if id, ok := t.X.(*ast.Ident); ok {
+								recv = "*" + id.Name
+							}
+						case *ast.Ident:
+							recv = t.Name
+						}
 					}
-					funcs = append(funcs, map[string]any{"kind": kind, "name": x.Name.Name, "line": fs.Position(x.Name.Pos()).Line})
+					generic := x.Type.TypeParams != nil && len(x.Type.TypeParams.List) > 0
+					funcs = append(funcs, map[string]any{"kind": kind, "name": x.Name.Name, "recv": recv, "generic": generic,
+						"line": fs.Position(x.Name.Pos()).Line})
 				}
 			case *ast.FuncLit:
 				funcs = append(funcs, map[string]any{"kind": "lit", "name": "", "line": fs.Position(x.Pos()).Line})
